@@ -228,8 +228,6 @@ def check_sorted_results_unsorted(ctx, fi, rule='R-PERM/unsort-before-return'):
                for x in ast.walk(v)):
             # np.argsort(p), {p[i]: i for i in ...}, np.empty_like(p)...
             inverse.add(d.name)
-    if not inverse:
-        return 0
     # the request is re-bound to its sorted copy: X = X[p]
     sort_nodes = set()
     for d in rd.defs:
@@ -242,7 +240,14 @@ def check_sorted_results_unsorted(ctx, fi, rule='R-PERM/unsort-before-return'):
             sort_nodes.add(d.node)
     if not sort_nodes:
         return 0
-    uses_inverse = {n.id for n in cfg.nodes if n.id in rd.live and any(
+    # the permutation itself, read after the sorting, is applied the other
+    # way round (`out[p[i]] = raw[i]`, `out[p] = raw`): that is the
+    # inverse too
+    perm_nodes = {p.node for p in perms}
+    inverse |= pnames
+    uses_inverse = {n.id for n in cfg.nodes if n.id in rd.live
+                    and n.id not in sort_nodes and n.id not in perm_nodes
+                    and any(
         isinstance(x, ast.Name) and x.id in inverse
         and isinstance(x.ctx, ast.Load)
         for root in n.exprs if root is not None for x in ast.walk(root))}
